@@ -46,7 +46,7 @@ claim('C18', 'Proof over the real Filter.run/init/exit/fini (abstract stages, gh
 claim('C13', 'Proof on the real RollLog.write / new_logfile / prune_logfiles over a ghost file system, from EVERY writer state satisfying LogInv (0..3 files, symbolic stamps, sizes, budgets, '
       'record sizes, given or clock timestamps incl. equal and backwards ones): LogInv preserved, files on disk total <= max(total_size, newest), newest never pruned, only the oldest '
       'files removed, no existing log file is ever re-opened for writing, reader position rebased correctly; real refresh_logfiles / seek_block never move the position backwards nor '
-      'skip an existing newer file under external deletions and new files. The byte-level read loop (record-level once/in-order/untorn) is NOT under contract.', '6-C13')
+      'skip an existing newer file under external deletions and new files; the real read()/read_block() obey the cursor law (returns exactly the next unread record / rest of the file of the first file at or after the position that has unread bytes, position right behind it, never backwards, no existing file skipped) from every reader position over 0..3 files with deletions, arbitrary disk sizes and 0..2 new files, refresh_logfiles used by its proved contract.', '6-C13')
 claim('C14', 'Proof on the real RollLog.write_head (crash invariant asserted after EVERY file-system call: the head file holds the previous or the new position), close, tell (position of '
       'the next unread byte), __init__ restart (exactly a [str, int] record is accepted, anything else raises before the position is used) and seek (reopen at the saved offset / first '
       'existing larger file / end; a file deleted in the meantime is skipped forward only), for 0..3 log files with symbolic stamps and offsets; no-skip lemma over these specifications.', '6-C14')
